@@ -4,15 +4,8 @@
 From Coq Require Import List Bool ZArith Arith.
 Import ListNotations.
 Require Import MV.Model.PySem MV.Gen.SrcPlan.
-Require Import MV.Model.Orch MV.Model.PlannerA MV.Proofs.SrcTiePlanP.
-Require MV.Proofs.SrcTieRunP.
+Require Import MV.Model.Orch MV.Model.PlannerA MV.Proofs.SrcTieLemP.
 Open Scope nat_scope.
-
-Lemma mem_app_or : forall x a b, mem x (a ++ b) = (mem x a || mem x b)%bool.
-Proof. exact SrcTieRunP.mem_app. Qed.
-
-Lemma mem_py_diff : forall x a b, mem x (py_diff Nat.eqb a b) = (mem x a && negb (mem x b))%bool.
-Proof. exact SrcTieRunP.mem_diff. Qed.
 
 Lemma mem_py_union : forall x a b, mem x (py_union Nat.eqb a b) = (mem x a || mem x b)%bool.
 Proof. intros. unfold py_union. rewrite mem_app_or, mem_py_diff. destruct (mem x a), (mem x b); reflexivity. Qed.
